@@ -14,6 +14,7 @@ def parseEv (t : String) : Option (Option Ev) :=
   | ["Fe", m, r] => do some (some (.flushEnd (← m.toNat?) (r == "ok")))
   | ["Wa", m, rid, p, f, l, ty, t] =>
     do some (some (.wireAck (← m.toNat?) (← rid.toNat?) (← p.toNat?) (← f.toNat?) (← l.toNat?) (← ty.toNat?) (← t.toNat?)))
+  | ["Wx", m, rid] => do some (some (.wireLost (← m.toNat?) (← rid.toNat?)))
   | ["Wr", m, rid, p, c] => do some (some (.wireRes (← m.toNat?) (← rid.toNat?) (← p.toNat?) (← c.toNat?)))
   | ["Wq", m, p, f, l, d, t] =>
     do some (some (.acquired (← m.toNat?) (← p.toNat?) (← f.toNat?) (← l.toNat?) (← d.toNat?) (← t.toNat?)))
@@ -21,6 +22,8 @@ def parseEv (t : String) : Option (Option Ev) :=
   | ["Cl", m] => do some (some (.closed (← m.toNat?)))
   | ["Q"] => some (some .quiesce)
   | ["Mv", _, _] => some none
+  | ["Xf", _, _, _] => some none   -- injected retriable acknowledge error: its `Wr` carries the code
+  | ["Xc", m, _, _] => some (m.toNat?.map Ev.connCut)   -- injected connection cut (member unknown: ignored)
   | ["Wbad"] => some none
   | ["ERRclient"] => some none
   | _ => none
